@@ -1,4 +1,4 @@
-import AwsVerif.Proofs.C01.Grow
+import AwsVerif.Proofs.C01.File
 /-! C01 helper layer 3d: cursor functions (advance, nospec mask, read family, append_and_update,
 write_to_capacity, read_and_fill_buffer, cat). -/
 namespace AwsVerif.Proofs.C01
@@ -55,14 +55,10 @@ theorem subW_lt (a b : Nat) : subW a b < W := Nat.mod_lt _ (by decide)
 theorem nospecMask_cases {i b : Nat} (hi : i < W) (hb : b < W) : nospecMask i b = 0 ∨ nospecMask i b = SIZE_MAX := by
   unfold nospecMask
   simp only
-  have hcomb : (i ||| b ||| subW (subW b i) 1) < 2 ^ 64 :=
-    Nat.or_lt_two_pow (Nat.or_lt_two_pow hi hb) (subW_lt _ _)
-  have hx : SIZE_MAX ^^^ (i ||| b ||| subW (subW b i) 1) < 2 ^ 64 :=
-    Nat.xor_lt_two_pow (by decide) hcomb
   rw [pow63]
-  have hq : (SIZE_MAX ^^^ (i ||| b ||| subW (subW b i) 1)) / 2 ^ 63 < 2 :=
-    Nat.div_lt_of_lt_mul (by omega)
-  generalize (SIZE_MAX ^^^ (i ||| b ||| subW (subW b i) 1)) / 2 ^ 63 = q at hq
+  have hq : (SIZE_MAX - (i ||| b ||| subW (subW b i) 1)) / 2 ^ 63 < 2 :=
+    Nat.div_lt_of_lt_mul (by have := smax; omega)
+  generalize (SIZE_MAX - (i ||| b ||| subW (subW b i) 1)) / 2 ^ 63 = q at hq
   have : q = 0 ∨ q = 1 := by omega
   rcases this with rfl | rfl
   · left; decide
@@ -78,16 +74,11 @@ theorem nospecMask_ok {i b : Nat} (hib : i < b) (hb : b ≤ HALF) : nospecMask i
   rw [hsub1, hsub2]
   have hcomb : (i ||| b ||| (b - i - 1)) < 2 ^ 63 :=
     Nat.or_lt_two_pow (Nat.or_lt_two_pow (by omega) (by omega)) (by omega)
-  have hx : SIZE_MAX ^^^ (i ||| b ||| (b - i - 1)) < 2 ^ 64 :=
-    Nat.xor_lt_two_pow (by decide) (by omega)
-  have hbit : (SIZE_MAX ^^^ (i ||| b ||| (b - i - 1))).testBit 63 = true := by
-    rw [Nat.testBit_xor, Nat.testBit_lt_two_pow hcomb, smax, Nat.testBit_two_pow_sub_one]
-    decide
-  have hge := Nat.ge_two_pow_of_testBit hbit
   rw [pow63]
-  have hq : (SIZE_MAX ^^^ (i ||| b ||| (b - i - 1))) / 2 ^ 63 = 1 := by
-    have h1 : (SIZE_MAX ^^^ (i ||| b ||| (b - i - 1))) / 2 ^ 63 < 2 := Nat.div_lt_of_lt_mul (by omega)
-    have h2 : 1 ≤ (SIZE_MAX ^^^ (i ||| b ||| (b - i - 1))) / 2 ^ 63 := (Nat.le_div_iff_mul_le (by decide)).mpr (by omega)
+  have hq : (SIZE_MAX - (i ||| b ||| (b - i - 1))) / 2 ^ 63 = 1 := by
+    have h1 : (SIZE_MAX - (i ||| b ||| (b - i - 1))) / 2 ^ 63 < 2 := Nat.div_lt_of_lt_mul (by have := smax; omega)
+    have h2 : 1 ≤ (SIZE_MAX - (i ||| b ||| (b - i - 1))) / 2 ^ 63 :=
+      (Nat.le_div_iff_mul_le (by decide)).mpr (by have := smax; omega)
     omega
   rw [hq]; decide
 
